@@ -531,6 +531,7 @@ package stun
 //@   derives old(WireHdr(m) && WireLoc(m)) ==> WireLoc(m)
 //@   derives old(WireHdr(m) && WireLoc(m) && WireVal(m) && NoClobber(m, val)) ==> WireVal(m)
 //@   derives old(WireHdr(m) && WirePad(m)) ==> WirePad(m)
+//@   derives old(Wire(m)) ==> Wire(m)
 //@   deriveuse forall(k, 0, old(len(m.Attributes)) + 1, vpos_frame(old(WLens(m)), WLens(m), k), vpos(WLens(m), k))
 //@   loop 0
 //@     assigns buf[0:len(buf)]
@@ -589,6 +590,8 @@ package stun
 //@   ensures be16(m.Raw, 0) == mtype(m.Type.Method, m.Type.Class) && be16(m.Raw, 2) == m.Length % 65536 && be32(m.Raw, 4) == 0x2112A442
 //@   ensures forall(j, 0, 12, m.Raw[8+j] == m.TransactionID[j])
 //@   ensures forall(i, 20, old(len(m.Raw)), m.Raw[i] == old(m.Raw[i]))
+//@   props C03
+//@   ensures old(Wire(m)) ==> Wire(m)
 
 //@ func (*Message).SetType(m, t)
 //@   safety C03
@@ -600,6 +603,8 @@ package stun
 //@   ensures len(m.Raw) == max(old(len(m.Raw)), 2) && (region(m.Raw) == old(region(m.Raw)) || fresh(m.Raw))
 //@   ensures be16(m.Raw, 0) == mtype(t.Method, t.Class)
 //@   ensures forall(i, 2, old(len(m.Raw)), m.Raw[i] == old(m.Raw[i]))
+//@   props C03
+//@   ensures old(Wire(m)) ==> Wire(m)
 
 //@ func (*Message).WriteTransactionID(m)
 //@   safety C03
@@ -607,6 +612,8 @@ package stun
 //@   requires m != nil && cap(m.Raw) >= 20
 //@   assigns m.Raw[8:20]
 //@   ensures forall(j, 0, 12, m.Raw[8+j] == m.TransactionID[j])
+//@   props C03
+//@   ensures old(Wire(m)) ==> Wire(m)
 
 //@ func (*Message).AddTo(m, b)
 //@   safety C03
@@ -614,6 +621,8 @@ package stun
 //@   requires m != nil && b != nil && cap(b.Raw) >= 20
 //@   assigns b.TransactionID, b.Raw[8:20]
 //@   ensures result == nil && forall(j, 0, 12, b.Raw[8+j] == old(m.TransactionID[j]) && b.TransactionID[j] == old(m.TransactionID[j]))
+//@   props C03
+//@   ensures old(Wire(b)) ==> Wire(b)
 
 //@ func transactionIDValueSetter.AddTo(t, m)
 //@   safety C03
@@ -621,6 +630,8 @@ package stun
 //@   requires m != nil && cap(m.Raw) >= 20
 //@   assigns m.TransactionID, m.Raw[8:20]
 //@   ensures result == nil && forall(j, 0, 12, m.Raw[8+j] == t[j] && m.TransactionID[j] == t[j])
+//@   props C03
+//@   ensures old(Wire(m)) ==> Wire(m)
 
 //@ func MessageType.AddTo(t, m)
 //@   safety C03
@@ -630,6 +641,8 @@ package stun
 //@   allocates
 //@   ensures result == nil && m.Type.Method == t.Method && m.Type.Class == t.Class && be16(m.Raw, 0) == mtype(t.Method, t.Class)
 //@   ensures len(m.Raw) == max(old(len(m.Raw)), 2) && forall(i, 2, old(len(m.Raw)), m.Raw[i] == old(m.Raw[i]))
+//@   props C03
+//@   ensures old(Wire(m)) ==> Wire(m)
 
 //@ func RawAttribute.AddTo(a, m)
 //@   safety C03
@@ -638,6 +651,8 @@ package stun
 //@   assigns m.Raw, m.Length, m.Attributes, mem(m.Raw), mem(m.Attributes)
 //@   allocates
 //@   ensures result == nil && Appended(m, a.Type, a.Value)
+//@   props C03
+//@   ensures old(Wire(m)) ==> Wire(m)
 
 // Interface contract of Setter (assumed for user setters; the library setters below are each proved against
 // their own, stronger contracts, under the size precondition Fits that the property states).
@@ -650,6 +665,8 @@ package stun
 //@   ensures (region(m.Raw) == old(region(m.Raw)) || fresh(m.Raw)) && (region(m.Attributes) == old(region(m.Attributes)) || fresh(m.Attributes))
 //@   ensures result == nil ==> ghost(setter_failed) == 0
 //@   ensures result != nil ==> ghost(setter_failed) == 1 && ghost(setter_err_tag) == errtag(result) && ghost(setter_err_val) == errval(result)
+//@   props C03
+//@   ensures old(Wire(m)) ==> Wire(m)
 
 //@ func (*Message).Build(m, setters)
 //@   safety C03 C09
@@ -678,6 +695,8 @@ package stun
 //@   ensures result == nil <==> len(v) <= maxLen
 //@   ensures result != nil ==> Unchanged(m)
 //@   ensures result == nil ==> Appended(m, t, v)
+//@   props C03
+//@   ensures old(Wire(m)) ==> Wire(m)
 
 //@ func Username.AddTo(u, m)
 //@   safety C09 C06
@@ -688,6 +707,8 @@ package stun
 //@   ensures result == nil <==> len(u) <= 513
 //@   ensures result != nil ==> Unchanged(m)
 //@   ensures result == nil ==> Appended(m, 0x0006, u)
+//@   props C03
+//@   ensures old(Wire(m)) ==> Wire(m)
 
 //@ func Realm.AddTo(n, m)
 //@   safety C09 C06
@@ -698,6 +719,8 @@ package stun
 //@   ensures result == nil <==> len(n) <= 763
 //@   ensures result != nil ==> Unchanged(m)
 //@   ensures result == nil ==> Appended(m, 0x0014, n)
+//@   props C03
+//@   ensures old(Wire(m)) ==> Wire(m)
 
 //@ func Nonce.AddTo(n, m)
 //@   safety C09 C06
@@ -708,6 +731,8 @@ package stun
 //@   ensures result == nil <==> len(n) <= 763
 //@   ensures result != nil ==> Unchanged(m)
 //@   ensures result == nil ==> Appended(m, 0x0015, n)
+//@   props C03
+//@   ensures old(Wire(m)) ==> Wire(m)
 
 //@ func Software.AddTo(s, m)
 //@   safety C09 C06
@@ -718,6 +743,8 @@ package stun
 //@   ensures result == nil <==> len(s) <= 763
 //@   ensures result != nil ==> Unchanged(m)
 //@   ensures result == nil ==> Appended(m, 0x8022, s)
+//@   props C03
+//@   ensures old(Wire(m)) ==> Wire(m)
 
 // AppendedHdr: as Appended, but the value bytes are described by the caller's own clauses.
 //@ define AppendedHdr(m, t, vl) = m.Length == old(m.Length) + 4 + pad4(vl) && len(m.Raw) == 20 + m.Length
@@ -746,6 +773,8 @@ package stun
 //@   ensures result == nil ==> AppendedHdr(msg, 0x0009, 4 + len(c.Reason))
 //@   ensures result == nil ==> NewValue(msg, 0) == 0 && NewValue(msg, 1) == 0 && NewValue(msg, 2) == c.Code / 100 && NewValue(msg, 3) == c.Code % 100
 //@   ensures result == nil ==> forall(j, 0, len(c.Reason), NewValue(msg, 4 + j) == old(c.Reason[j]))
+//@   props C03
+//@   ensures old(Wire(msg)) ==> Wire(msg)
 
 //@ func isZeros(p)
 //@   safety C06 C09
@@ -777,6 +806,8 @@ package stun
 //@   ensures result == nil && len(a.IP) == 4 ==> AppendedHdr(msg, attrType, 8) && AddrHdr(msg, 1, uint16(a.Port)) && forall(j, 0, 4, NewValue(msg, 4+j) == old(a.IP[j]))
 //@   ensures result == nil && len(a.IP) == 16 && old(isIPv4spec(a.IP)) ==> AppendedHdr(msg, attrType, 8) && AddrHdr(msg, 1, uint16(a.Port)) && forall(j, 0, 4, NewValue(msg, 4+j) == old(a.IP[12+j]))
 //@   ensures result == nil && len(a.IP) == 16 && !old(isIPv4spec(a.IP)) ==> AppendedHdr(msg, attrType, 20) && AddrHdr(msg, 2, uint16(a.Port)) && forall(j, 0, 16, NewValue(msg, 4+j) == old(a.IP[j]))
+//@   props C03
+//@   ensures old(Wire(msg)) ==> Wire(msg)
 
 //@ define isIPv4spec(ip) = forall(j, 0, 10, ip[j] == 0) && ip[10] == 255 && ip[11] == 255
 
@@ -792,6 +823,8 @@ package stun
 //@   ensures result == nil && len(a.IP) == 4 ==> AppendedHdr(msg, attr, 8) && AddrHdr(msg, 1, xor16(a.Port, 0x2112)) && forall(j, 0, 4, NewValue(msg, 4+j) == xor8(old(a.IP[j]), cookie_tid(msg, j)))
 //@   ensures result == nil && len(a.IP) == 16 && old(isIPv4spec(a.IP)) ==> AppendedHdr(msg, attr, 8) && AddrHdr(msg, 1, xor16(a.Port, 0x2112)) && forall(j, 0, 4, NewValue(msg, 4+j) == xor8(old(a.IP[12+j]), cookie_tid(msg, j)))
 //@   ensures result == nil && len(a.IP) == 16 && !old(isIPv4spec(a.IP)) ==> AppendedHdr(msg, attr, 20) && AddrHdr(msg, 2, xor16(a.Port, 0x2112)) && forall(j, 0, 16, NewValue(msg, 4+j) == xor8(old(a.IP[j]), cookie_tid(msg, j)))
+//@   props C03
+//@   ensures old(Wire(msg)) ==> Wire(msg)
 
 //@ func XORMappedAddress.AddTo(a, m)
 //@   safety C09 C06
@@ -804,6 +837,8 @@ package stun
 //@   ensures result != nil ==> Unchanged(m)
 //@   ensures result == nil && len(a.IP) == 4 ==> AppendedHdr(m, 0x0020, 8) && AddrHdr(m, 1, xor16(a.Port, 0x2112)) && forall(j, 0, 4, NewValue(m, 4+j) == xor8(old(a.IP[j]), cookie_tid(m, j)))
 //@   ensures result == nil && len(a.IP) == 16 && !old(isIPv4spec(a.IP)) ==> AppendedHdr(m, 0x0020, 20) && AddrHdr(m, 2, xor16(a.Port, 0x2112)) && forall(j, 0, 16, NewValue(m, 4+j) == xor8(old(a.IP[j]), cookie_tid(m, j)))
+//@   props C03
+//@   ensures old(Wire(m)) ==> Wire(m)
 
 //@ define MappedAddrSetter(a, m, t) = (result == nil <==> (len(a.IP) == 4 || len(a.IP) == 16)) && (result != nil ==> Unchanged(m))
 //@   | && (result == nil && len(a.IP) == 4 ==> AppendedHdr(m, t, 8) && AddrHdr(m, 1, uint16(a.Port)) && forall(j, 0, 4, NewValue(m, 4+j) == old(a.IP[j])))
@@ -816,6 +851,8 @@ package stun
 //@   assigns m.Raw, m.Length, m.Attributes, mem(m.Raw), mem(m.Attributes)
 //@   allocates
 //@   ensures MappedAddrSetter(a, m, 0x0001)
+//@   props C03
+//@   ensures old(Wire(m)) ==> Wire(m)
 //@ func (*AlternateServer).AddTo(s, m)
 //@   safety C09 C06
 //@   props C09 C06 C03
@@ -823,6 +860,8 @@ package stun
 //@   assigns m.Raw, m.Length, m.Attributes, mem(m.Raw), mem(m.Attributes)
 //@   allocates
 //@   ensures MappedAddrSetter(s, m, 0x8023)
+//@   props C03
+//@   ensures old(Wire(m)) ==> Wire(m)
 //@ func (*ResponseOrigin).AddTo(o, m)
 //@   safety C09 C06
 //@   props C09 C06 C03
@@ -830,6 +869,8 @@ package stun
 //@   assigns m.Raw, m.Length, m.Attributes, mem(m.Raw), mem(m.Attributes)
 //@   allocates
 //@   ensures MappedAddrSetter(o, m, 0x802b)
+//@   props C03
+//@   ensures old(Wire(m)) ==> Wire(m)
 //@ func (*OtherAddress).AddTo(o, m)
 //@   safety C09 C06
 //@   props C09 C06 C03
@@ -837,6 +878,8 @@ package stun
 //@   assigns m.Raw, m.Length, m.Attributes, mem(m.Raw), mem(m.Attributes)
 //@   allocates
 //@   ensures MappedAddrSetter(o, m, 0x802C)
+//@   props C03
+//@   ensures old(Wire(m)) ==> Wire(m)
 
 //@ func ErrorCode.AddTo(c, m)
 //@   safety C09 C06
@@ -849,6 +892,8 @@ package stun
 //@   ensures result != nil ==> Unchanged(m)
 //@   ensures result == nil ==> AppendedHdr(m, 0x0009, 4 + len(errorReasons[c])) && NewValue(m, 2) == c / 100 && NewValue(m, 3) == c % 100
 //@   ensures result == nil ==> forall(j, 0, len(errorReasons[c]), NewValue(m, 4 + j) == old(errorReasons[c][j]))
+//@   props C03
+//@   ensures old(Wire(m)) ==> Wire(m)
 
 // RFC 5389 section 15.9: UNKNOWN-ATTRIBUTES is a list of 16-bit attribute types.
 //@ func UnknownAttributes.AddTo(a, m)
@@ -864,6 +909,8 @@ package stun
 //@     invariant -1 <= rangeindex && rangeindex + 1 <= len(a) && len(v) == 2 * (rangeindex + 1) && fresh(v)
 //@     invariant forall(k, 0, rangeindex + 1, v[2*k] == a[k] / 256 && v[2*k + 1] == a[k] % 256)
 //@     decreases len(a) - rangeindex
+//@   props C03
+//@   ensures old(Wire(m)) ==> Wire(m)
 
 // ---- signing (C04, C05) ----
 
@@ -877,6 +924,8 @@ package stun
 //@   assert be32(m.Raw, len(m.Raw) - 4) == val
 //@   ensures result == nil && AppendedHdr(m, 0x8028, 4)
 //@   ensures be32(m.Raw, len(m.Raw) - 4) == xor32(crc32(m.Raw[:len(m.Raw) - 8]), 0x5354554e)
+//@   props C03
+//@   ensures old(Wire(m)) ==> Wire(m)
 
 //@ func MessageIntegrity.AddTo(i, msg)
 //@   safety C04 C03 C09
@@ -891,6 +940,8 @@ package stun
 //@   loop 0
 //@     invariant -1 <= rangeindex && forall(k, 0, rangeindex+1, msg.Attributes[k].Type != 0x8028)
 //@     decreases len(msg.Attributes) - rangeindex
+//@   props C03
+//@   ensures old(Wire(msg)) ==> Wire(msg)
 
 // ---- Agent (C13: transaction-table specification; C14: lock discipline) ----
 
@@ -1139,6 +1190,8 @@ package stun
 //@   requires m != nil && cap(m.Raw) >= 20
 //@   assigns m.TransactionID, m.Raw[8:20]
 //@   ensures result == nil ==> forall(j, 0, 12, m.Raw[8+j] == m.TransactionID[j])
+//@   props C03
+//@   ensures old(Wire(m)) ==> Wire(m)
 
 //@ func Message.MarshalBinary(m)
 //@   safety C08
